@@ -56,28 +56,43 @@ def check_cases(cases: list[dict], rep: Report, known: dict) -> None:
             kinds["error" if r.startswith("!") else "expression" if "(" in r else "number"] += 1
         for k, v in kinds.items():
             rep.count("battery-results", k, v)
+        # in-process run must agree as well (and ties the battery to the model through C01's comparison); it also tells
+        # which positions are results of an early Differential (K5)
+        here = battery.run(c["seed"], 0, c["n"])
+        early = set(battery.EARLY_DIFF_IDX)
+
+        def k5(i: int, a: list[str], b: list[str]) -> bool:
+            """K5: an early Differential normalises one partial per variable in the iteration order of a *set* of names;
+            when a simplification runs out of its step budget (K4) the fallback depends on which shared sub-expressions
+            were flagged by the partials normalised before.  Attributed only if position i is an early-Differential
+            result and both processes logged the same, non-empty, warning-level records for that battery case."""
+            if i not in early:
+                return False
+            j = next((t for t in range(i + 1, len(a)) if a[t].startswith("log:")), None)
+            return j is not None and a[j] == b[j] and "WARNING:" in a[j]
+
+        def compare(out: list[str], label: str, info: dict) -> None:
+            if len(out) != len(ref):
+                rep.violation(f"battery {label} has {len(out)} results instead of {len(ref)}", info)
+                return
+            diff = [j for j, (a, b) in enumerate(zip(out, ref)) if a != b]
+            # a query that hit the time limit in one process (machine load) decides nothing
+            tm = [j for j in diff if "!timeout" in (out[j], ref[j])]
+            if tm:
+                rep.skip("impl-timeout", len(tm))
+            diff = [j for j in diff if j not in set(tm)]
+            kf = [j for j in diff if k5(j, ref, out)]
+            for j in kf:
+                rep.known("K5", "an early Differential result differs between hash seeds where the step budget was exhausted (partials normalised in set order; same logged warnings in both processes)", dict(info, index=j, ref=ref[j][:80], other=out[j][:80]))
+            diff = [j for j in diff if j not in set(kf)]
+            if diff:
+                i = diff[0]
+                rep.violation(f"result {i} differs between processes: {ref[i][:200]} (PYTHONHASHSEED={configs[0][0]}, permutation {configs[0][1]}) "
+                              f"vs {out[i][:200]} ({label})", dict(info, index=i))
         for (h, p), out in zip(configs[1:], outs[1:]):
             rep.corr_checked += 1
-            if len(out) == len(ref) and out != ref:
-                # a query that hit the time limit in one process (machine load) decides nothing
-                tm = [j for j, (a, b) in enumerate(zip(out, ref)) if a != b and "!timeout" in (a, b)]
-                if tm:
-                    rep.skip("impl-timeout", len(tm))
-                    out = [r if j in set(tm) else o for j, (o, r) in enumerate(zip(out, ref))]
-            if out != ref:
-                if len(out) != len(ref):
-                    rep.violation(f"battery under PYTHONHASHSEED={h}, permutation {p} has {len(out)} results instead of {len(ref)}",
-                                  dict(c, hashseed=h, perm=p))
-                    continue
-                i = next(j for j, (a, b) in enumerate(zip(out, ref)) if a != b)
-                rep.violation(f"result {i} differs between processes: {ref[i][:200]} (PYTHONHASHSEED={configs[0][0]}, permutation {configs[0][1]}) "
-                              f"vs {out[i][:200]} (PYTHONHASHSEED={h}, permutation {p})",
-                              dict(c, hashseed=h, perm=p, index=i))
-        # in-process run must agree as well (and ties the battery to the model through C01's comparison)
-        here = battery.run(c["seed"], 0, c["n"])
-        if here != ref:
-            i = next((j for j, (a, b) in enumerate(zip(here, ref)) if a != b), -1)
-            rep.violation(f"result {i} differs between this process and a fresh interpreter", dict(c, index=i))
+            compare(out, f"PYTHONHASHSEED={h}, permutation {p}", dict(c, hashseed=h, perm=p))
+        compare(here, "this process", dict(c))
         rep.sample({"battery_seed": c["seed"], "queries": len(ref), "configs": [f"hashseed={h},perm={p}" for h, p in configs][:8],
                     "first_results": ref[:5]})
         ncs = []
